@@ -13,7 +13,8 @@ import (
 // builder-drive (C13 on builder.StringBuilder): every sequence of at most -len operations over
 // {SafeString, UnsafeString (payloads of equal and of different lengths), Print, Reset, TakeRedactableString,
 // TakeRedactableBytes, and the accessors RedactableString / RedactableBytes / String / Len}.  After every
-// operation the builder must show exactly what a NEW builder shows after the writes since the last Reset/Take
+// sequence (judged at its end only, so that no accessor call of the judge sits between the operations; every prefix
+// is a sequence of its own) the builder must show exactly what a NEW builder shows after the writes since the last Reset/Take
 // (accessors are pure, Reset/Take give a pristine object), Len must be the length of RedactableString, and
 // what Take returned must stay what it was.
 
@@ -83,6 +84,9 @@ func judgeBuilder(rep *lib.Report, k bdCase) {
 		case "LEN":
 			_ = sb.Len()
 		}
+		if i != len(k.Ops)-1 {
+			continue // judged only at the end: the accessor calls of the judge itself must not sit between the operations
+		}
 		rep.AddEval(1)
 		var fresh redact.StringBuilder
 		for _, w := range since {
@@ -130,10 +134,7 @@ func builderDrive(args []string) {
 		}
 	}
 	lib.Parallel(8, func(emit func(bdCase)) { gen(nil, *maxLen, emit) }, func(k bdCase) {
-		// only maximal sequences are judged step by step (their prefixes are covered on the way)
-		if len(k.Ops) == *maxLen {
-			rep.Guard("builder:panic", k, func() { judgeBuilder(rep, k) })
-		}
+		rep.Guard("builder:panic", k, func() { judgeBuilder(rep, k) })
 	})
 	rep.SampleIfFew(map[string]interface{}{"alphabet": len(bdAlphabet), "length": *maxLen})
 	rep.Finish()
